@@ -1480,6 +1480,12 @@ def run_check(ck, which: str) -> None:  # noqa: C901, PLR0912, PLR0915
                 break
 
 
+def print_broken(ck) -> None:
+    """Name what is broken on stdout (the replay file of a no-failing-input-found VIOLATION may be gone later)."""
+    for b in ck.broken_items:
+        print(f"[{ck.prop}] broken: {b['name']}: {b['detail'][:160]!r}", flush=True)
+
+
 def replay_file(rp: dict, which: str) -> int:
     import json
     ops = rp.get("ops")
